@@ -575,6 +575,7 @@ func (fr *frame) unop(instr *ssa.UnOp, x value) value {
 		if ptr == nil {
 			fr.rtPanic("invalid memory address or nil pointer dereference")
 		}
+		fr.raceRead(instr.X, ptr)
 		return load(deref(instr.X.Type()), ptr)
 	case token.NOT:
 		return p.notv(x)
